@@ -85,6 +85,56 @@ def big_groups():
     return groups
 
 
+def classy_groups(n, start=0):
+    """Medium-sized rule sets (3..40 rules) of class-heavy patterns over [a-z0-9], each alone in its own specification with the
+    default (compressed) tables: the table packer's templates, protos and interior fits depend on the whole rule set, and a
+    packing slip loses one (state, class) transition - so the inputs are the transition cover of each rule set's reference
+    automaton (round-4 seed C01-r4m2)."""
+    sym = b"abcdefghijklmnopqrstuvwxyz0123456789"
+    gs = []
+    for i in range(start, start + n):
+        x = (i * 2654435761 + 12345) & 0xffffffff
+
+        def nxt():
+            nonlocal x
+            x = (x * 1103515245 + 12345) & 0x7fffffff
+            return x >> 8
+
+        def cls(lo, hi):
+            k = lo + nxt() % (hi - lo + 1)
+            return ('set', frozenset(sym[nxt() % len(sym)] for _ in range(k)))
+
+        def word(lo, hi):
+            return R.string(bytes(sym[nxt() % 12] for _ in range(lo + nxt() % (hi - lo + 1))))
+
+        rules, seen = [], set()
+        for j in range(3 + nxt() % 38):
+            form = nxt() % 7
+            if form == 0:
+                a = R.plus(cls(2, 7))
+            elif form == 1:
+                a = R.cat(cls(1, 5), R.star(cls(2, 9)))
+            elif form == 2:
+                a = word(2, 4)
+            elif form == 3:
+                a = R.cat(word(1, 3), R.star(cls(1, 4)))
+            elif form == 4:
+                a = R.rep(cls(1, 3), 2, 3)
+            elif form == 5:
+                a = R.cat(cls(1, 3), word(1, 2), R.opt(cls(1, 2)))
+            else:
+                a = R.alt(word(1, 3), R.cat(cls(1, 2), R.plus(cls(1, 3))))
+            key = R.render(a)
+            if key not in seen:
+                seen.add(key)
+                rules.append(a)
+        name = "Y%d" % i
+        rs = [H.Rule(a, scs=[name]) for a in rules]
+        tagged = [(k + 1, r.full_ast()) for k, r in enumerate(rs)]
+        gs.append(H.Group([(name, True)], rs, name, b"a", 0, tc_strings(tagged, 4000), label="classy:%d" % i))
+    return gs
+
+
 def parse_flex_v(stderr):
     st = {}
     for key, pat in (("nfa", r"(\d+)/(\d+) NFA states"), ("dfa", r"(\d+)/(\d+) DFA states"),
@@ -131,6 +181,7 @@ def run(tier):
     add_jobs(ruleset_groups(L - 1, 6), "rules+CF", flex_args=["-v", "-CF"], **small)
     add_jobs(ruleset_groups(L - 1, 6), "rules+Cem-small", **small)
     add_jobs(big_groups(), "big", 1)
+    add_jobs(classy_groups(160 if quick else 1200), "classy", 1)
     if not quick:
         add_jobs(spelling_groups(spellings.setop_spellings(2), "OO"), "setop2", 60)
         g3 = [g for g in ast_groups(3, 5)]
